@@ -273,8 +273,8 @@ CHECKS = {
                 "distinct_nontrivial = distinct (TAC, phase chunk) units, TAC transition pairs and histories",
         "phases": [{"variant": "interp-dbg", "monitor": "c13", "shards": 16, "tiers": ("quick",)},
                    {"variant": "interp-rel", "monitor": "c13", "shards": 16, "tiers": ("thorough",)}],
-        "floors": {"quick": {"evaluations": 8_000_000, "overflows-expected": 10_000, "tac-glitch-increments": 1_000, "single-batches:301-5000-clocks": 20_000, "single-batches:over-5000-clocks": 2_000},
-                   "thorough": {"evaluations": 200_000_000, "single-batches:over-5000-clocks": 2_000}},
+        "floors": {"quick": {"evaluations": 8_000_000, "overflows-expected": 10_000, "tac-glitch-increments": 1_000, "single-batches:301-5000-clocks": 20_000, "single-batches:over-5000-clocks": 2_000, "bus-level:oam-transfers-started": 2_000, "bus-level:overflows-expected": 300},
+                   "thorough": {"evaluations": 200_000_000, "single-batches:over-5000-clocks": 2_000, "bus-level:oam-transfers-started": 2_000, "bus-level:overflows-expected": 300}},
         "exhaustive": {"quick": False, "thorough": False},
         "assumptions": ["accept-set: a DIV write while the selected divider bit is high (hardware counts an edge, the statement names only the TAC case): after it only DIV stays compared in that history (counted)"],
     },
